@@ -134,7 +134,7 @@ def slotIdx (w : World) (p : Nat) (sl : Option Nat) : List Nat :=
   | some s => (match getC w p s with | some c => trueIdx c.used | none => [])
   | none => []
 
-theorem free_bound {cfg : Cfg} {w : World} (h : Inv cfg w) {p : Nat} {P : Pub} (hp : getP w p = some P)
+theorem free_bound {cfg : Cfg} (hpre : cfg.prealloc = none) {w : World} (h : Inv cfg w) {p : Nat} {P : Pub} (hp : getP w p = some P)
     (hal : P.alive = true)
     (hcomp : ∀ s c, some s ∈ P.conns → getC w p s = some c → c.comp = []) :
     P.maxLoans ≤ P.free.length + P.loans.length := by
@@ -202,7 +202,9 @@ theorem free_bound {cfg : Cfg} {w : World} (h : Inv cfg w) {p : Nat} {P : Pub} (
   have hfl := flatMap_length_le P.conns (slotIdx w p) _ hslot
   rw [hSl.connsLen] at hfl
   have hn := M.nEq
-  unfold Cfg.nChunks at hn
+  unfold Cfg.nChunks Cfg.fullChunks at hn
+  rw [hpre] at hn
+  dsimp only at hn
   have hh := M.histLen
   simp only [List.length_range, List.length_append, List.length_map] at hlen
   omega
